@@ -85,7 +85,9 @@ Record pstate := {
   ps_base : list doc;                  (* abstract content the run started from (recovered content) *)
   ps_safe : list Z;                    (* keys of safe-mode batches introduced and not yet grabbed by the persister *)
   ps_acked : list Z;                   (* keys acknowledged so far *)
-  ps_faulted : bool                    (* some directory operation failed in this run *)
+  ps_faulted : bool;                   (* some directory operation failed in this run *)
+  ps_grabbed : option (Z * list Z)     (* the snapshot the persister works on: (epoch, ids of its file-backed
+                                          segments), from its grab to the commit of its snapshot file *)
 }.
 
 Definition n_intro (st : pstate) : nat := length (t_keys (ps_t st)).
@@ -147,13 +149,17 @@ Definition fly_find (snp : bool) (id : Z) (l : list inflight) : option inflight 
 
 Definition with_disk (st : pstate) (d : disk) : pstate :=
   {| ps_t := ps_t st; ps_epoch_n := ps_epoch_n st; ps_segdocs := ps_segdocs st; ps_disk := d; ps_pol := ps_pol st;
-     ps_base := ps_base st; ps_safe := ps_safe st; ps_acked := ps_acked st; ps_faulted := ps_faulted st |}.
+     ps_base := ps_base st; ps_safe := ps_safe st; ps_acked := ps_acked st; ps_faulted := ps_faulted st; ps_grabbed := ps_grabbed st |}.
 Definition with_pol (st : pstate) (p : pol) : pstate :=
   {| ps_t := ps_t st; ps_epoch_n := ps_epoch_n st; ps_segdocs := ps_segdocs st; ps_disk := ps_disk st; ps_pol := p;
-     ps_base := ps_base st; ps_safe := ps_safe st; ps_acked := ps_acked st; ps_faulted := ps_faulted st |}.
+     ps_base := ps_base st; ps_safe := ps_safe st; ps_acked := ps_acked st; ps_faulted := ps_faulted st; ps_grabbed := ps_grabbed st |}.
 Definition set_faulted (st : pstate) : pstate :=
   {| ps_t := ps_t st; ps_epoch_n := ps_epoch_n st; ps_segdocs := ps_segdocs st; ps_disk := ps_disk st; ps_pol := ps_pol st;
-     ps_base := ps_base st; ps_safe := ps_safe st; ps_acked := ps_acked st; ps_faulted := true |}.
+     ps_base := ps_base st; ps_safe := ps_safe st; ps_acked := ps_acked st; ps_faulted := true; ps_grabbed := ps_grabbed st |}.
+
+Definition clear_grabbed (st : pstate) : pstate :=
+  {| ps_t := ps_t st; ps_epoch_n := ps_epoch_n st; ps_segdocs := ps_segdocs st; ps_disk := ps_disk st; ps_pol := ps_pol st;
+     ps_base := ps_base st; ps_safe := ps_safe st; ps_acked := ps_acked st; ps_faulted := ps_faulted st; ps_grabbed := None |}.
 
 Definition learn_segs (segdocs : list (Z * list doc)) (sn : snapshot) : list (Z * list doc) :=
   fold_left (fun m s => match lookup (ss_id s) m with Some _ => m | None => (ss_id s, ss_docs s) :: m end) (sn_segs sn) segdocs.
@@ -169,6 +175,17 @@ Definition root_of_ievent (e : ievent) : option snapshot :=
   end.
 
 Definition max_epoch (l : list (Z * snpfile)) : Z := fold_left (fun m p => Z.max m (fst p)) l 0.
+
+(* ids of the file-backed (persisted) segments of a snapshot *)
+Definition persisted_ids (sn : snapshot) : list Z := map ss_id (filter ss_persisted (sn_segs sn)).
+
+(* a segment that becomes file-backed in the root (persisted by the persister and swapped in, or the
+   output of a file merge) is a new file: the deletion policy has never been told about it *)
+Definition newly_persisted_ok (known : list Z) (old : snapshot) (e : ievent) (r : snapshot) : bool :=
+  match e with
+  | ELoad _ => true
+  | _ => forallb (fun id => zmem id (persisted_ids old) || negb (zmem id known)) (persisted_ids r)
+  end.
 
 (* the root a reopened writer starts from is the newest complete snapshot file of the directory
    (loadSnapshots, writer.go:136-175: every loadable snapshot becomes the root in turn, oldest first) *)
@@ -205,29 +222,34 @@ Definition paccept_ev (table : list (list Z)) (st : pstate) (ev : pevent) : opti
       | Some t' =>
           match root_of_ievent e with
           | Some r =>
-              if segs_consistent (ps_segdocs st) r && root_event_ok (ps_epoch_n st) d e r then
+              if segs_consistent (ps_segdocs st) r && root_event_ok (ps_epoch_n st) d e r
+                 && newly_persisted_ok (p_known (ps_pol st)) (t_root (ps_t st)) e r then
                 Some {| ps_t := t'; ps_epoch_n := (sn_epoch r, length (t_keys t')) :: ps_epoch_n st;
                         ps_segdocs := learn_segs (ps_segdocs st) r; ps_disk := d; ps_pol := ps_pol st;
                         ps_base := (match e with ELoad _ => abs r | _ => ps_base st end);
-                        ps_safe := ps_safe st; ps_acked := ps_acked st; ps_faulted := ps_faulted st |}
+                        ps_safe := ps_safe st; ps_acked := ps_acked st; ps_faulted := ps_faulted st; ps_grabbed := ps_grabbed st |}
               else None
           | None =>
               Some {| ps_t := t'; ps_epoch_n := ps_epoch_n st; ps_segdocs := ps_segdocs st; ps_disk := d; ps_pol := ps_pol st;
-                      ps_base := ps_base st; ps_safe := ps_safe st; ps_acked := ps_acked st; ps_faulted := ps_faulted st |}
+                      ps_base := ps_base st; ps_safe := ps_safe st; ps_acked := ps_acked st; ps_faulted := ps_faulted st; ps_grabbed := ps_grabbed st |}
           end
       end
   | PSafe k =>
       (* recorded right after the introduction of a safe batch *)
       if zmem k (t_keys (ps_t st)) && negb (zmem k (ps_safe st)) && negb (zmem k (ps_acked st))
       then Some {| ps_t := ps_t st; ps_epoch_n := ps_epoch_n st; ps_segdocs := ps_segdocs st; ps_disk := d; ps_pol := ps_pol st;
-                   ps_base := ps_base st; ps_safe := ps_safe st ++ [k]; ps_acked := ps_acked st; ps_faulted := ps_faulted st |}
+                   ps_base := ps_base st; ps_safe := ps_safe st ++ [k]; ps_acked := ps_acked st; ps_faulted := ps_faulted st; ps_grabbed := ps_grabbed st |}
       else None
   | PGrab epoch nacks =>
       (* root and pending acknowledgement channels are taken under one lock: exactly the safe batches
          introduced up to that root and not grabbed before *)
+      (* ... by the persister, which runs once the root is loaded and is not inside a snapshot write *)
       if (epoch =? sn_epoch (t_root (ps_t st))) && (nacks =? Z.of_nat (length (ps_safe st)))
+         && match ps_epoch_n st with [] => false | _ => true end
+         && negb (existsb if_snp (d_fly d))
       then Some {| ps_t := ps_t st; ps_epoch_n := ps_epoch_n st; ps_segdocs := ps_segdocs st; ps_disk := d; ps_pol := ps_pol st;
-                   ps_base := ps_base st; ps_safe := []; ps_acked := ps_acked st; ps_faulted := ps_faulted st |}
+                   ps_base := ps_base st; ps_safe := []; ps_acked := ps_acked st; ps_faulted := ps_faulted st;
+                   ps_grabbed := Some (epoch, persisted_ids (t_root (ps_t st))) |}
       else None
   | PPersistStart true epoch bytes segs =>
       (* the snapshot is written after every segment it names is completely persisted; its content is the
@@ -239,6 +261,10 @@ Definition paccept_ev (table : list (list Z)) (st : pstate) (ev : pevent) : opti
              && negb (existsb (fun ef => fst ef =? epoch) (d_snp d))
              && (max_epoch (d_snp d) <? epoch)
              && negb (existsb if_snp (d_fly d))          (* one persister: at most one snapshot is being written *)
+             && match ps_grabbed st with                 (* it is the grabbed snapshot, and it keeps every file-backed segment *)
+                | Some (ge, gsegs) => (ge =? epoch) && forallb (fun id => zmem id (map fst segs)) gsegs
+                | None => false
+                end
              && match loaded_ids table bytes with
                 | Some ids => list_eqbZ ids (map fst segs)
                 | None => false
@@ -264,7 +290,7 @@ Definition paccept_ev (table : list (list Z)) (st : pstate) (ev : pevent) : opti
       | Some f =>
           let st1 := with_disk st (mkdisk d ((epoch, {| sf_bytes := if_bytes f; sf_segs := if_segs f |}) :: d_snp d)
                                           (d_seg d) (fly_remove true epoch (d_fly d))) in
-          Some (with_pol st1 (pol_commit (ps_pol st) epoch (map fst (if_segs f))))
+          Some (clear_grabbed (with_pol st1 (pol_commit (ps_pol st) epoch (map fst (if_segs f)))))
       | None => None
       end
   | PPersistOk false id =>
@@ -296,7 +322,7 @@ Definition paccept_ev (table : list (list Z)) (st : pstate) (ev : pevent) : opti
       | Some pos =>
           if covered st pos
           then Some {| ps_t := ps_t st; ps_epoch_n := ps_epoch_n st; ps_segdocs := ps_segdocs st; ps_disk := d; ps_pol := ps_pol st;
-                       ps_base := ps_base st; ps_safe := ps_safe st; ps_acked := zadd k (ps_acked st); ps_faulted := ps_faulted st |}
+                       ps_base := ps_base st; ps_safe := ps_safe st; ps_acked := zadd k (ps_acked st); ps_faulted := ps_faulted st; ps_grabbed := ps_grabbed st |}
           else None
       | None => None
       end
